@@ -887,7 +887,8 @@ func (p *parser) parseArrayTypeOrSliceLit(state int, slice ast.Expr) (expr ast.E
 		elt = p.tryType()
 		if elt == nil {
 			if len == nil {
-				log.Panicln("TODO: expect slice index")
+				p.errorExpected(p.pos, "slice index", 2)
+				len = &ast.BadExpr{From: p.pos, To: p.pos}
 			}
 			if debugParseOutput {
 				log.Printf("ast.IndexExpr{X: %v, Index: %v}\n", slice, len)
